@@ -11,8 +11,15 @@ import (
 func TestVerifJumpEmit(t *testing.T) {
 	w := jgen.Open()
 	defer w.Close()
+	var prevA uint64
+	var prev []byte
 	for _, a := range jgen.Addrs() {
-		w.Emit("amd64", "iface", 0x7f0000000000, a, jmpWithRdx(uintptr(a)))
+		cur := jmpWithRdx(uintptr(a))
+		w.Emit("amd64", "iface", 0x7f0000000000, a, cur)
+		if prev != nil {
+			w.Emit("amd64", "iface", 0x7f0000000000, prevA, prev) // judged again after the next emission
+		}
+		prevA, prev = a, cur
 	}
 	t.Logf("events=%d", w.N)
 }
